@@ -3,12 +3,12 @@
 # in its scratch worktree /tmp/mut/<ID>, then run the property's check (and optional others) against that worktree.
 ID=$1; N=$2; TIER=${3:-quick}; shift 3 2>/dev/null
 CHECKS=${@:-$ID}
-WT=/tmp/mut/$ID; OUT=/tmp/mut/out/$ID
+BASE=${MUTBASE:-/tmp/mut}; WT=$BASE/$ID; OUT=$BASE/out/$ID
 cd $WT || exit 2
 git checkout -q -- . ; git clean -fdq
-echo "== demo without change"; PYTHONPATH=$WT /venv/bin/python -W ignore $OUT/demo$N.py >/tmp/mut/demo_without.log 2>&1; echo "exit $?"
+echo "== demo without change"; PYTHONPATH=$WT /venv/bin/python -W ignore $OUT/demo$N.py >$BASE/demo_without_$ID.log 2>&1; echo "exit $?"
 git apply $OUT/patch$N.diff || { echo "PATCH DOES NOT APPLY"; exit 2; }
-echo "== demo with change"; PYTHONPATH=$WT /venv/bin/python -W ignore $OUT/demo$N.py >/tmp/mut/demo_with.log 2>&1; echo "exit $?"; tail -3 /tmp/mut/demo_with.log
+echo "== demo with change"; PYTHONPATH=$WT /venv/bin/python -W ignore $OUT/demo$N.py >$BASE/demo_with_$ID.log 2>&1; echo "exit $?"; tail -3 $BASE/demo_with_$ID.log
 if [ "$SKIPTESTS" != 1 ]; then
 echo "== test suite with change"; /venv/bin/python -m pytest -q -p no:cacheprovider --timeout=900 -n 8 2>&1 | tail -1
 fi
